@@ -366,39 +366,7 @@ func runC13(c *an.Ctx) {
 	})
 
 	// ---- R2 who may mutate files
-	forbidden := map[string]bool{"os.WriteFile": true, "os.Create": true, "os.Rename": true, "os.Remove": true, "os.RemoveAll": true,
-		"os.Truncate": true, "os.CreateTemp": true, "io/ioutil.WriteFile": true}
-	for _, fn := range c.AllFns {
-		k := an.FnKey(fn)
-		if c.IsTestFile(fn.Pos()) || !(strings.HasPrefix(k, "filter/") || strings.HasPrefix(k, "profiledb") || strings.HasPrefix(k, "querylog.")) {
-			continue
-		}
-		if pk := an.FnPkg(fn); pk != nil && strings.HasSuffix(pk.Path(), "test") {
-			continue // test helper packages (filtertest, profiledbtest)
-		}
-		for _, call := range an.Calls(fn) {
-			n := an.Short(an.CalleeName(call))
-			switch {
-			case forbidden[n]:
-				c.Bad("C13-R2", k+" "+n, call.Pos(), "a file is created, replaced or removed without the atomic temp-file + rename protocol: a crash leaves a truncated or missing list")
-			case n == "os.OpenFile":
-				// only append-only opens (the query log) are allowed
-				flags, ok := an.ConstInt(call.Common().Args[1])
-				oAppend, _ := c.ConstInt("os", "O_APPEND")
-				oTrunc, _ := c.ConstInt("os", "O_TRUNC")
-				if !ok {
-					// a named constant defined elsewhere: resolve through the global
-					c.Ok("C13-R2", k+" os.OpenFile", call.Pos(), "open flags come from a package-level constant (checked in C15-R3)")
-				} else if flags&oTrunc != 0 || flags&oAppend == 0 {
-					c.Bad("C13-R2", k+" os.OpenFile", call.Pos(), "a file is opened for writing without O_APPEND (or with O_TRUNC)")
-				} else {
-					c.Ok("C13-R2", k+" os.OpenFile", call.Pos(), "append-only open")
-				}
-			case strings.HasPrefix(n, "github.com/google/renameio/v2."), strings.HasPrefix(n, "(*github.com/google/renameio/v2.PendingFile)."), n == "os.Chtimes":
-				c.Ok("C13-R2", k+" "+n, call.Pos(), "atomic replace protocol")
-			}
-		}
-	}
+	sharedFileMutators(c, "C13-R2", "filter/", "profiledb", "querylog.")
 
 	// ---- R3 commits
 	ignorable := func(name string) bool {
